@@ -41,9 +41,9 @@
 EXTENDS Naturals, Integers, Sequences, FiniteSets, TLC, Json, SourceProps
 
 CONSTANTS BODY,               \* "A" | "B"
-          TMIN, TMAX,         \* value type
-          CMIN, CMAX,         \* computation type
-          BLO, BHI,           \* bounds enumerated
+          TNEG, TMAX,         \* value type -TNEG..TMAX (TLC configs cannot hold negative numbers)
+          CNEG, CMAX,         \* computation type -CNEG..CMAX
+          BNEG, BHI,          \* bounds enumerated -BNEG..BHI
           MAXELEMS,           \* hi - lo <= MAXELEMS
           MAXPEERS,
           REVERSED,           \* include lo > hi
@@ -53,6 +53,9 @@ CONSTANTS BODY,               \* "A" | "B"
 VARIABLES lo, hi, phase, out   \* out[p][i+1] = sub-range of index i of p peers
 vars == <<lo, hi, phase, out>>
 
+TMIN == 0 - TNEG
+CMIN == 0 - CNEG
+BLO  == 0 - BNEG
 PANIC == <<>>
 
 InC(v) == CMIN <= v /\ v <= CMAX
